@@ -94,6 +94,11 @@ struct Config {
   Fault* faults = nullptr;  // `fired` is written back
   size_t n_faults = 0;
   size_t stack_bytes = 4u << 20;
+  // optional caller-provided switch log (e.g. in shared memory, so that it survives a crash of
+  // the process that runs the simulation); the count is kept in *sw_count
+  Switch* sw_buf = nullptr;
+  size_t sw_cap = 0;
+  volatile size_t* sw_count = nullptr;
 };
 
 constexpr size_t kMaxRaces = 48;
@@ -124,7 +129,9 @@ struct Result {
   int unsupported = 0;              // an unmodelled blocking primitive was reached
   char unsupported_what[64] = {};
   size_t n_switches = 0;
-  Switch* switch_log = nullptr;     // points into runtime memory, valid until next run()
+  Switch* switch_log = nullptr;     // points into runtime memory (or Config::sw_buf), valid until next run()
+  volatile int cur_task = -1;       // who held the baton last (for crash reports)
+  volatile int cur_op = -1;
 };
 
 typedef void (*TaskBody)(int task, void* arg);
